@@ -788,6 +788,163 @@ def o_so3_boundary(inp):
     return None if ok else {'tag': f'{entry}/accepted-but-wrong-result', 'observed': r, 'expected': Mx}
 
 
+def _nrm(a):
+    a = np.asarray(a, float)
+    return a / np.linalg.norm(a, axis=-1, keepdims=True)
+
+
+def _pad(a):
+    a = np.asarray(a, float)
+    return np.concatenate([np.zeros(a.shape[:-1] + (1,)), a], axis=-1)
+
+
+def own_cases():
+    """name -> (build(ahrs, p, q, X, Y) -> result, reference(p, q, X, Y) or None, kind).  p, q: 4-vectors; X, Y: N x 4 arrays.
+    Every input handed to a constructor / operator is an INSTANCE of the package's own classes or an array derived from one
+    (arithmetic, scalar multiples, slices, views, versor(s)=False objects, subclass-preserving NumPy results)."""
+    def Qt(a, *x, **k):
+        return a.Quaternion(*x, **k)
+
+    def QA(a, *x, **k):
+        return a.QuaternionArray(*x, **k)
+
+    def D(a, *x, **k):
+        return a.DCM(*x, **k)
+    Rq = lambda v: cm.Rspec(_nrm(v))
+    C = {
+        # ---- Quaternion(<object>)
+        'Q(Q)': (lambda a, p, q, X, Y: Qt(a, Qt(a, p)), lambda p, q, X, Y: _nrm(p), 'unit'),
+        'Q(Q versor=False)': (lambda a, p, q, X, Y: Qt(a, Qt(a, p, versor=False)), lambda p, q, X, Y: _nrm(p), 'unit'),
+        'Q(Q versor=False unit-ish)': (lambda a, p, q, X, Y: Qt(a, Qt(a, _nrm(p) * (1 + 3e-6), versor=False)), lambda p, q, X, Y: _nrm(p), 'unit'),
+        'Q(3*Q)': (lambda a, p, q, X, Y: Qt(a, 3 * Qt(a, p)), lambda p, q, X, Y: _nrm(p), 'unit'),
+        'Q(Q/7)': (lambda a, p, q, X, Y: Qt(a, Qt(a, p) / 7), lambda p, q, X, Y: _nrm(p), 'unit'),
+        'Q((1+1e-6)*Q)': (lambda a, p, q, X, Y: Qt(a, (1 + 1e-6) * Qt(a, p)), lambda p, q, X, Y: _nrm(p), 'unit'),
+        'Q(-Q)': (lambda a, p, q, X, Y: Qt(a, -Qt(a, p)), lambda p, q, X, Y: -_nrm(p), 'unit'),
+        'Q(np.add(Q,Q))': (lambda a, p, q, X, Y: Qt(a, np.add(Qt(a, p), Qt(a, q))), lambda p, q, X, Y: _nrm(_nrm(p) + _nrm(q)), 'unit'),
+        'Q(np.subtract(Q,Q))': (lambda a, p, q, X, Y: Qt(a, np.subtract(Qt(a, p), Qt(a, q))), lambda p, q, X, Y: _nrm(_nrm(p) - _nrm(q)), 'unit'),
+        'Q(Q+Q)': (lambda a, p, q, X, Y: Qt(a, Qt(a, p) + Qt(a, q)), lambda p, q, X, Y: _nrm(_nrm(p) + _nrm(q)), 'unit'),
+        'Q(Q[1:])': (lambda a, p, q, X, Y: Qt(a, Qt(a, p)[1:]), lambda p, q, X, Y: _nrm(_pad(np.asarray(p)[1:])), 'unit'),
+        'Q(Q.view(ndarray))': (lambda a, p, q, X, Y: Qt(a, Qt(a, p, versor=False).view(np.ndarray)), lambda p, q, X, Y: _nrm(p), 'unit'),
+        'Q(QA[k])': (lambda a, p, q, X, Y: Qt(a, QA(a, X, versors=False)[0]), lambda p, q, X, Y: _nrm(X[0]), 'unit'),
+        'Q(Q.conjugate)': (lambda a, p, q, X, Y: Qt(a, Qt(a, p, versor=False).conjugate), lambda p, q, X, Y: _nrm(cm.qconj(p)), 'unit'),
+        'Q(Q*Q)': (lambda a, p, q, X, Y: Qt(a, Qt(a, p, versor=False) * Qt(a, q, versor=False)), lambda p, q, X, Y: _nrm(cm.qmul(p, q)), 'unit'),
+        'Q(order=S object)': (lambda a, p, q, X, Y: Qt(a, Qt(a, p, versor=False, order='S')), lambda p, q, X, Y: _nrm(p), 'unit'),
+        # ---- + / - with object operands
+        'Q + Q(versor=False)': (lambda a, p, q, X, Y: Qt(a, p) + Qt(a, q, versor=False), None, 'unit'),
+        'Q(versor=False) - Q': (lambda a, p, q, X, Y: Qt(a, p, versor=False) - Qt(a, q), None, 'unit'),
+        'Q(versor=False) + Q(versor=False)': (lambda a, p, q, X, Y: Qt(a, p, versor=False) + Qt(a, q, versor=False), None, 'unit'),
+        'Q + 3*Q': (lambda a, p, q, X, Y: Qt(a, p) + 3 * Qt(a, q), None, 'unit'),
+        '(3*Q) - Q': (lambda a, p, q, X, Y: (3 * Qt(a, p)) - Qt(a, q), None, 'unit'),
+        'Q + QA[k]': (lambda a, p, q, X, Y: Qt(a, p) + QA(a, X)[0], lambda p, q, X, Y: _nrm(_nrm(p) + _nrm(X[0])), 'unit'),
+        'Q - Q.view(ndarray)': (lambda a, p, q, X, Y: Qt(a, p) - Qt(a, q).view(np.ndarray), lambda p, q, X, Y: _nrm(_nrm(p) - _nrm(q)), 'unit'),
+        # ---- QuaternionArray(<object>)
+        'QA(QA)': (lambda a, p, q, X, Y: QA(a, QA(a, X)), lambda p, q, X, Y: _nrm(X), 'unit'),
+        'QA(QA versors=False)': (lambda a, p, q, X, Y: QA(a, QA(a, X, versors=False)), lambda p, q, X, Y: _nrm(X), 'unit'),
+        'QA(QA+QA)': (lambda a, p, q, X, Y: QA(a, QA(a, X) + QA(a, Y)), lambda p, q, X, Y: _nrm(_nrm(X) + _nrm(Y)), 'unit'),
+        'QA(QA-QA)': (lambda a, p, q, X, Y: QA(a, QA(a, X) - QA(a, Y)), lambda p, q, X, Y: _nrm(_nrm(X) - _nrm(Y)), 'unit'),
+        'QA(3*QA)': (lambda a, p, q, X, Y: QA(a, 3 * QA(a, X)), lambda p, q, X, Y: _nrm(X), 'unit'),
+        'QA(QA/2)': (lambda a, p, q, X, Y: QA(a, QA(a, X) / 2), lambda p, q, X, Y: _nrm(X), 'unit'),
+        'QA((1+1e-6)*QA)': (lambda a, p, q, X, Y: QA(a, (1 + 1e-6) * QA(a, X)), lambda p, q, X, Y: _nrm(X), 'unit'),
+        'QA(-QA)': (lambda a, p, q, X, Y: QA(a, -QA(a, X)), lambda p, q, X, Y: -_nrm(X), 'unit'),
+        'QA(QA[:,1:])': (lambda a, p, q, X, Y: QA(a, QA(a, X)[:, 1:]), lambda p, q, X, Y: _nrm(_pad(_nrm(X)[:, 1:])), 'unit'),
+        'QA(QA[1:])': (lambda a, p, q, X, Y: QA(a, QA(a, X, versors=False)[1:]), lambda p, q, X, Y: _nrm(X[1:]), 'unit'),
+        'QA(QA[::-1])': (lambda a, p, q, X, Y: QA(a, QA(a, X, versors=False)[::-1]), lambda p, q, X, Y: _nrm(X[::-1]), 'unit'),
+        'QA(QA[[0,0]])': (lambda a, p, q, X, Y: QA(a, QA(a, X, versors=False)[[0, 0]]), lambda p, q, X, Y: _nrm(X[[0, 0]]), 'unit'),
+        'QA(QA.view(ndarray))': (lambda a, p, q, X, Y: QA(a, QA(a, X, versors=False).view(np.ndarray)), lambda p, q, X, Y: _nrm(X), 'unit'),
+        'QA(np.abs(QA))': (lambda a, p, q, X, Y: QA(a, np.abs(QA(a, X, versors=False))), lambda p, q, X, Y: _nrm(np.abs(X)), 'unit'),
+        'QA(QA*QA elementwise)': (lambda a, p, q, X, Y: QA(a, QA(a, X) * QA(a, Y) + 2.0), None, 'unit'),
+        'QA([Q,Q])': (lambda a, p, q, X, Y: QA(a, [Qt(a, p, versor=False), Qt(a, q)]), lambda p, q, X, Y: _nrm(np.array([p, q])), 'unit'),
+        'QA(np.array([Q,Q]))': (lambda a, p, q, X, Y: QA(a, np.array([Qt(a, p, versor=False), Qt(a, q, versor=False)])), lambda p, q, X, Y: _nrm(np.array([p, q])), 'unit'),
+        'QA(2*QA(versors=False), order=S)': (lambda a, p, q, X, Y: QA(a, 2 * QA(a, X, versors=False), order='S'), lambda p, q, X, Y: _nrm(X), 'unit'),
+        # ---- rotate_by / average on and with objects
+        'QA.rotate_by(Q)': (lambda a, p, q, X, Y: QA(a, X).rotate_by(Qt(a, q)), lambda p, q, X, Y: np.array([cm.qmul(_nrm(q), r) for r in _nrm(X)]), 'unit'),
+        'QA.rotate_by(Q versor=False)': (lambda a, p, q, X, Y: QA(a, X).rotate_by(Qt(a, q, versor=False)), lambda p, q, X, Y: np.array([cm.qmul(_nrm(q), r) for r in _nrm(X)]), 'unit'),
+        'QA.rotate_by(3*Q)': (lambda a, p, q, X, Y: QA(a, X).rotate_by(3 * Qt(a, q)), lambda p, q, X, Y: np.array([cm.qmul(_nrm(q), r) for r in _nrm(X)]), 'unit'),
+        'QA.rotate_by(QA[k])': (lambda a, p, q, X, Y: QA(a, X).rotate_by(QA(a, Y, versors=False)[0]), lambda p, q, X, Y: np.array([cm.qmul(_nrm(Y[0]), r) for r in _nrm(X)]), 'unit'),
+        'QA(3*QA).rotate_by(Q)': (lambda a, p, q, X, Y: QA(a, 3 * QA(a, X)).rotate_by(Qt(a, q)), lambda p, q, X, Y: np.array([cm.qmul(_nrm(q), r) for r in _nrm(X)]), 'unit'),
+        'QA(QA versors=False).rotate_by(Q)': (lambda a, p, q, X, Y: QA(a, QA(a, X, versors=False)).rotate_by(Qt(a, q)), lambda p, q, X, Y: np.array([cm.qmul(_nrm(q), r) for r in _nrm(X)]), 'unit'),
+        'QA(versors=False).rotate_by(Q)': (lambda a, p, q, X, Y: QA(a, X, versors=False).rotate_by(Qt(a, q)), None, 'unit'),
+        'QA(QA+QA).average()': (lambda a, p, q, X, Y: QA(a, QA(a, X) + QA(a, X + 0.05 * Y)).average(), None, 'unit'),
+        'QA(QA versors=False).average()': (lambda a, p, q, X, Y: QA(a, QA(a, X, versors=False)).average(), None, 'unit'),
+        'QA(3*QA).average()': (lambda a, p, q, X, Y: QA(a, 3 * QA(a, X)).average(), None, 'unit'),
+        'QA(QA[:,1:]).average()': (lambda a, p, q, X, Y: QA(a, QA(a, X)[:, 1:]).average(), None, 'unit'),
+        # ---- DCM(<object>) and conversions between the classes
+        'DCM(DCM)': (lambda a, p, q, X, Y: D(a, D(a, q=p)), lambda p, q, X, Y: Rq(p), 'so3'),
+        'DCM(DCM@DCM)': (lambda a, p, q, X, Y: D(a, D(a, q=p) @ D(a, q=q)), lambda p, q, X, Y: Rq(p) @ Rq(q), 'so3'),
+        'DCM(DCM.T)': (lambda a, p, q, X, Y: D(a, D(a, q=p).T), lambda p, q, X, Y: Rq(p).T, 'so3'),
+        'DCM(DCM.I)': (lambda a, p, q, X, Y: D(a, D(a, q=p).I), lambda p, q, X, Y: Rq(p).T, 'so3'),
+        'DCM(DCM.view(ndarray))': (lambda a, p, q, X, Y: D(a, D(a, q=p).view(np.ndarray)), lambda p, q, X, Y: Rq(p), 'so3'),
+        'DCM(np.array([DCM,DCM]))': (lambda a, p, q, X, Y: D(a, np.array([D(a, q=p), D(a, q=q)])), lambda p, q, X, Y: np.array([Rq(p), Rq(q)]), 'so3'),
+        'DCM(Q.to_DCM())': (lambda a, p, q, X, Y: D(a, Qt(a, p).to_DCM()), lambda p, q, X, Y: Rq(p), 'so3'),
+        'DCM(q=Q)': (lambda a, p, q, X, Y: D(a, q=Qt(a, p)), lambda p, q, X, Y: Rq(p), 'so3'),
+        'DCM(q=Q versor=False)': (lambda a, p, q, X, Y: D(a, q=Qt(a, p, versor=False)), lambda p, q, X, Y: Rq(p), 'so3'),
+        'DCM(q=3*Q)': (lambda a, p, q, X, Y: D(a, q=3 * Qt(a, p)), lambda p, q, X, Y: Rq(p), 'so3'),
+        'DCM(q=QA(versors=False)[k])': (lambda a, p, q, X, Y: D(a, q=QA(a, X, versors=False)[0]), lambda p, q, X, Y: Rq(X[0]), 'so3'),
+        'DCM(axang=(Q[1:],t))': (lambda a, p, q, X, Y: D(a, axang=(Qt(a, p, versor=False)[1:], 0.75)), None, 'so3'),
+        'DCM(-DCM)': (lambda a, p, q, X, Y: D(a, -D(a, q=p)), None, 'reject'),
+        'DCM(2*DCM)': (lambda a, p, q, X, Y: D(a, 2 * D(a, q=p)), None, 'reject'),
+        'DCM((1+1e-4)*DCM)': (lambda a, p, q, X, Y: D(a, (1 + 1e-4) * D(a, q=p)), None, 'reject'),
+        'DCM(DCM[::-1])': (lambda a, p, q, X, Y: D(a, D(a, q=p)[::-1]), None, 'reject'),
+        'DCM(DCM+DCM)': (lambda a, p, q, X, Y: D(a, D(a, q=p) + D(a, q=q)), None, 'reject'),
+        # ---- memory layout: transposed / Fortran-ordered / strided inputs hold the same numbers
+        'DCM(ndarray.T)': (lambda a, p, q, X, Y: D(a, Rq(p).T), lambda p, q, X, Y: Rq(p).T, 'so3'),
+        'DCM(asfortranarray)': (lambda a, p, q, X, Y: D(a, np.asfortranarray(Rq(p))), lambda p, q, X, Y: Rq(p), 'so3'),
+        'DCM(swapaxes(stack))': (lambda a, p, q, X, Y: D(a, np.swapaxes(np.array([Rq(p), Rq(q)]), -1, -2)), lambda p, q, X, Y: np.array([Rq(p).T, Rq(q).T]), 'so3'),
+        'DCM(strided view)': (lambda a, p, q, X, Y: D(a, np.kron(Rq(p), np.ones((2, 2)))[::2, ::2]), lambda p, q, X, Y: Rq(p), 'so3'),
+        'QA(asfortranarray)': (lambda a, p, q, X, Y: QA(a, np.asfortranarray(X)), lambda p, q, X, Y: _nrm(X), 'unit'),
+        'QA(ndarray.T of 4xN)': (lambda a, p, q, X, Y: QA(a, np.ascontiguousarray(X.T).T), lambda p, q, X, Y: _nrm(X), 'unit'),
+        'QA(asfortranarray Nx3)': (lambda a, p, q, X, Y: QA(a, np.asfortranarray(X[:, 1:])), lambda p, q, X, Y: _nrm(_pad(X[:, 1:])), 'unit'),
+        'QA(strided view)': (lambda a, p, q, X, Y: QA(a, np.repeat(X, 2, axis=1)[:, ::2]), lambda p, q, X, Y: _nrm(X), 'unit'),
+        'QA(asfortranarray, versors=False)': (lambda a, p, q, X, Y: QA(a, np.asfortranarray(_nrm(X)), versors=False), lambda p, q, X, Y: _nrm(X), 'unit'),
+        'Q(strided view)': (lambda a, p, q, X, Y: Qt(a, np.repeat(p, 2)[::2]), lambda p, q, X, Y: _nrm(p), 'unit'),
+        'QA(asfortranarray).rotate_by(Q)': (lambda a, p, q, X, Y: QA(a, np.asfortranarray(X)).rotate_by(Qt(a, q)), lambda p, q, X, Y: np.array([cm.qmul(_nrm(q), r) for r in _nrm(X)]), 'unit'),
+        'Q(dcm=ndarray.T)': (lambda a, p, q, X, Y: np.asarray(Qt(a, dcm=Rq(p).T)) * np.sign(np.asarray(Qt(a, dcm=Rq(p).T)) @ _nrm(cm.qconj(p))), lambda p, q, X, Y: _nrm(cm.qconj(p)), 'unit'),
+        'Q(dcm=DCM)': (lambda a, p, q, X, Y: Qt(a, dcm=D(a, q=p)), None, 'unit'),
+        'Q(dcm=DCM@DCM)': (lambda a, p, q, X, Y: Qt(a, dcm=D(a, q=p) @ D(a, q=q)), None, 'unit'),
+        'Q(dcm=DCM.T)': (lambda a, p, q, X, Y: Qt(a, dcm=D(a, q=p).T), None, 'unit'),
+        'Q(dcm=2*DCM)': (lambda a, p, q, X, Y: Qt(a, dcm=2 * D(a, q=p)), None, 'reject'),
+        'Q(dcm=-DCM)': (lambda a, p, q, X, Y: Qt(a, dcm=-D(a, q=p)), None, 'reject'),
+        'Q(dcm=shear of DCM)': (lambda a, p, q, X, Y: Qt(a, dcm=D(a, q=p) @ np.array([[1, 1e-3, 0], [0, 1, 0], [0, 0, 1.0]])), None, 'reject'),
+        'QA(DCM=stack of DCM)': (lambda a, p, q, X, Y: QA(a, DCM=np.array([D(a, q=p), D(a, q=q), D(a, q=p) @ D(a, q=q)])), None, 'unit'),
+    }
+    return C
+
+
+def o_own_objects(inp):
+    """constructors and operators fed with instances of the package's own classes and arrays derived from them"""
+    import ahrs
+    case = inp['case']
+    build, ref, kind = own_cases()[case]
+    p, q = np.array(inp['p'], float), np.array(inp['q'], float)
+    X, Y = np.array(inp['X'], float), np.array(inp['Y'], float)
+    try:
+        with np.errstate(all='ignore'):
+            r = np.asarray(build(ahrs, p, q, X, Y))
+    except REJ as e:
+        if kind == 'reject':
+            return None
+        return {'tag': f'{case}/rejects-valid-input', 'observed': f'{type(e).__name__}: {e}'}
+    if kind == 'reject':
+        return {'tag': f'{case}/accepts-non-rotation', 'observed': r, 'expected': 'ValueError/TypeError'}
+    if np.iscomplexobj(r) or r.dtype != np.dtype(float) or cm.bad(r):
+        return {'tag': f'{case}/nonfinite-or-not-real', 'observed': r}
+    if kind == 'unit':
+        if r.shape[-1] != 4:
+            return {'tag': f'{case}/shape', 'observed': r.shape}
+        nr = np.linalg.norm(r.reshape(-1, 4), axis=1)
+        if cm.maxabs(nr, 1.0) > TOL:
+            return {'tag': f'{case}/not-unit', 'observed': nr, 'expected': 1.0}
+    else:
+        res = max(_so3_res(m) for m in r.reshape(-1, 3, 3))
+        if res > TOL:
+            return {'tag': f'{case}/not-SO3', 'observed': res, 'expected': f'<= {TOL}'}
+    if ref is not None:
+        e = np.asarray(ref(p, q, X, Y), float)
+        if e.shape != r.shape or cm.maxabs(r, e) > 1e-11:
+            return {'tag': f'{case}/not-the-expected-value', 'observed': r, 'expected': e}
+    return None
+
+
 DCM_METHODS = [('shepperd', {}), ('hughes', {}), ('chiaverini', {}), ('sarabandi', {}), ('sarabandi', {'threshold': 0.5}),
                ('itzhack', {'version': 1}), ('itzhack', {'version': 2}), ('itzhack', {'version': 3})]
 
@@ -843,7 +1000,7 @@ def o_dcm_methods(inp):
     return None
 
 
-ORACLES = {'dcm_methods': o_dcm_methods, 'quat': o_quat, 'ops': o_ops, 'dcm_route': o_dcm_route, 'so3_boundary': o_so3_boundary, 'decision': o_decision}
+ORACLES = {'own_objects': o_own_objects, 'dcm_methods': o_dcm_methods, 'quat': o_quat, 'ops': o_ops, 'dcm_route': o_dcm_route, 'so3_boundary': o_so3_boundary, 'decision': o_decision}
 
 NS = (1, 2, 3, 4, 5, 7)
 
@@ -1015,6 +1172,16 @@ def search(ctx, scale):
             ctx.check('so3_boundary', inp, cm_call(o_so3_boundary, inp, entry), nontrivial_key=(entry, 'near', i))
             inp = {'entry': entry, 'M': [[repr(x) if x != x else x for x in r] for r in far.tolist()], 'expect': 'reject', 'family': fam}
             ctx.check('so3_boundary', inp, cm_call(o_so3_boundary, inp, entry), nontrivial_key=(entry, fam, i))
+    # ---- instances of the package's own classes and arrays derived from them as inputs
+    names = list(own_cases())
+    for rep in range(2 * scale):
+        N = NS[rep % len(NS)] if rep else 5
+        N = max(N, 2)
+        for case in names:
+            sc = (1.0, 3.0, 1e-3, 1 + 1e-6, 1e3)[(rep + len(case)) % 5]
+            inp = {'case': case, 'p': (cm.rand_unit_quat(rng) * sc).tolist(), 'q': (cm.rand_unit_quat(rng) * (2.0 if rep % 2 else 0.5)).tolist(),
+                   'X': (rng.standard_normal((N, 4)) * sc).tolist(), 'Y': rng.standard_normal((N, 4)).tolist()}
+            ctx.check('own_objects', inp, cm_call(o_own_objects, inp, case), nontrivial_key=(case, rep))
     # ---- every DCM -> quaternion method, through both constructors, on valid rotations of every thin region
     for i, (reg, Rm) in enumerate(rotation_regions(rng, 5 * scale)):
         for m, kw in DCM_METHODS:
